@@ -1,6 +1,7 @@
 package interp
 
 import (
+	"fmt"
 	"go/types"
 	"strings"
 )
@@ -24,6 +25,65 @@ func init() {
 		*cell = fr.i.materialise(pend, elemT)
 		return nil
 	})
+	// Protect(name, ptr): the fields of the struct ptr points to (and the maps
+	// they hold) become write-protected; Unprotect(ptr) lifts it again.
+	protect := func(on bool) func(fr *frame, args []value) value {
+		return func(fr *frame, args []value) value {
+			name := ""
+			k := 0
+			if on {
+				name, k = args[0].(string), 1
+			}
+			it := fr.i.asIface(args[k])
+			cell, ok := it.v.(*value)
+			if !ok || cell == nil {
+				return nil
+			}
+			st, ok := (*cell).(structure)
+			if !ok {
+				return nil
+			}
+			var names []string
+			if pt, ok := it.t.Underlying().(*types.Pointer); ok {
+				if ts, ok := pt.Elem().Underlying().(*types.Struct); ok {
+					for q := 0; q < ts.NumFields(); q++ {
+						names = append(names, ts.Field(q).Name())
+					}
+				}
+			}
+			for q := range st {
+				fname := fmt.Sprint(q)
+				if q < len(names) {
+					fname = names[q]
+				}
+				if on {
+					fr.i.protected[&st[q]] = name + "." + fname
+					if m, ok := st[q].(*gmap); ok && m != nil {
+						fr.i.protected[m] = name + "." + fname
+					}
+				} else {
+					delete(fr.i.protected, &st[q])
+					if m, ok := st[q].(*gmap); ok && m != nil {
+						delete(fr.i.protected, m)
+					}
+				}
+			}
+			if on {
+				cells := st
+				fr.i.path.logUndo(func() {
+					for q := range cells {
+						delete(fr.i.protected, &cells[q])
+						if m, ok := cells[q].(*gmap); ok && m != nil {
+							delete(fr.i.protected, m)
+						}
+					}
+				})
+			}
+			return nil
+		}
+	}
+	reg(rtPkg+".Protect", protect(true))
+	reg(rtPkg+".Unprotect", protect(false))
 	// ProtectNew(on bool): lazy objects created from now on are write-protected.
 	reg(rtPkg+".ProtectNew", func(fr *frame, args []value) value {
 		fr.i.path.lz.prot = args[0].(bool)
